@@ -413,6 +413,11 @@ func ruleC11(c *Ctx) {
 	if dk != nil {
 		keyUnwrapFlow(c, "C11-R6", dk)
 	}
+	// R7 each encrypted assertion is decoded on its own
+	c.rule("C11-R7", "every EncryptedAssertion is decoded into a target allocated by its own handler invocation (shared with C07-R3): a reused target carries the previous element's key placement / digest into the next")
+	if da := c.kernel("(*SAMLServiceProvider).decryptAssertions", "*", "-(*SAMLServiceProvider).getDecryptCert", "-types.(*EncryptedAssertion).DecryptBytes", "-parseResponse"); da != nil {
+		freshTargetsInHandlers(c, "C11-R7", da)
+	}
 
 	// R3
 	tableAgreement(c, "C11-R3", encryptionSelectors(c), 4)
